@@ -243,4 +243,44 @@ end
 
 abbrev Conforms (t : Ty) (v : Val) : Prop := conf t v = true
 
+/-! ### the validator with two requirements relaxed
+
+`confL ll lk`: as `conf`, but with `ll` a `Literal` member may be matched by Python `==` instead of
+identity (`True` for `Literal[1]`), and with `lk` dictionary keys are not looked at.  `confL false false`
+is `conf`; the relaxed versions delimit the two known deviations of the code exactly. -/
+
+def litLoose (ls : List Lit) (v : Val) : Bool := ls.any (fun l => pyEq l.toVal v)
+
+mutual
+def confL (ll lk : Bool) : Ty → Val → Bool
+  | .str, .str _ => true
+  | .int, .int _ => true
+  | .float, .flt _ => true
+  | .bool, .bool _ => true
+  | .none, .null => true
+  | .any, _ => true
+  | .union ts, v => confLAny ll lk ts v
+  | .list t, .list xs => confLAll ll lk t xs
+  | .dict k t, .dict kvs => confLKvs ll lk k t kvs
+  | .tuple ts, .tuple xs => confLZip ll lk ts xs
+  | .tupleVar t, .tuple xs => confLAll ll lk t xs
+  | .set t, .set xs => confLAll ll lk t xs
+  | .literal ls, v => if ll then litLoose ls v else ls.any (fun l => l.same v)
+  | .enum c ms, .enum c' n => c == c' && ms.contains n
+  | _, _ => false
+def confLAny (ll lk : Bool) : List Ty → Val → Bool
+  | [], _ => false
+  | t :: ts, v => confL ll lk t v || confLAny ll lk ts v
+def confLAll (ll lk : Bool) : Ty → List Val → Bool
+  | _, [] => true
+  | t, x :: xs => confL ll lk t x && confLAll ll lk t xs
+def confLKvs (ll lk : Bool) : KTy → Ty → List (DKey × Val) → Bool
+  | _, _, [] => true
+  | k, t, (key, x) :: xs => (lk || DKey.conf k key) && confL ll lk t x && confLKvs ll lk k t xs
+def confLZip (ll lk : Bool) : List Ty → List Val → Bool
+  | [], [] => true
+  | t :: ts, x :: xs => confL ll lk t x && confLZip ll lk ts xs
+  | _, _ => false
+end
+
 end Jap.Adapt
